@@ -2,6 +2,7 @@ package zsim
 
 import (
 	"math/rand"
+	"sort"
 	"strconv"
 )
 
@@ -122,3 +123,20 @@ func (c constSource) Seed(int64)     {}
 
 // Itoa is a small convenience for site strings in harnesses.
 func Itoa(i int) string { return strconv.Itoa(i) }
+
+type orderedKey interface {
+	~int | ~int8 | ~int16 | ~int32 | ~int64 | ~uint | ~uint8 | ~uint16 | ~uint32 | ~uint64 | ~uintptr | ~string
+}
+
+// SortedKeys returns the keys of m: in sorted order during a simulated run (so that one seed is one
+// execution), in map order otherwise.
+func SortedKeys[K orderedKey, V any](m map[K]V) []K {
+	keys := make([]K, 0, len(m))
+	for k := range m {
+		keys = append(keys, k)
+	}
+	if cur.Load() != nil {
+		sort.Slice(keys, func(i, j int) bool { return keys[i] < keys[j] })
+	}
+	return keys
+}
